@@ -352,6 +352,7 @@ theorem stepPlain_track {R R' : Chan → Prop} (hg : ∀ d f, GrowPrim d f → R
       (h.anyConns _) _ _
   | recv c t id cmd =>
     apply onMessage_track hC hB' (fun _ cs h => h.anyConns cs) (fun _ h => h.mono hsub) c t id cmd
+      (fun _ => Track.msgClosed R)
     · intro x m mood app tgt hx hcmd happ htg s1 h1 hh
       exact h1.modDb _ (hcs c t id x m mood app tgt (by rw [hcmd]) hx happ htg _ h1.db hh)
     · intro x m mood app tgt hx hcmd happ htg s1 h1 hno
